@@ -5,7 +5,9 @@
    created by Channel::dup from the template handle (fix F18: also the reverse
    direction).  [dup] copies the metrics only, so an instance starts idle with
    an empty queue whatever state the template is in, also when the template is
-   the live channel of another link that is transmitting at that moment.
+   the live channel of another link that is transmitting at that moment, or a
+   handle with any history (taken from a simulation that was stopped while it
+   was transmitting or had messages queued, and then dropped).
    An instance does not exist ([chs c = None]) until a handler first uses it;
    it is then created by [dup] from the current state of channel 0, the live
    template of run-time connects (links connected before the run are created
